@@ -167,7 +167,7 @@ def check_case(fn, recipe, script, kind, T, vname, rec=None, then=None, delivery
                     p.__exit__(None, None, None)
     except PR.Timeout:
         HY.force_global_clean()
-        raise PropertyViolation("hang", f"probed run did not finish within 3 s\n{ctxt}")
+        raise PropertyViolation("hang", f"probed run did not finish within 3 s of CPU time\n{ctxt}")
     except BaseException as e:
         if isinstance(e, (KeyboardInterrupt, SystemExit)):
             raise
